@@ -55,16 +55,17 @@ Theorem C14_outside_extents_only_whitespace_goes :
 Proof. exact clean_only_deletes. Qed.
 Print Assumptions C14_outside_extents_only_whitespace_goes.
 
-(** An inline removal at the end of a line keeps the line break (the line is not joined with the
-    next one): neither the empty-line remover nor the indentation remover touches it. *)
-Theorem C14_line_break_after_code_is_kept :
+(** A removal position that is preceded by code on its own line is left completely alone by the
+    tidying step - whatever follows: the line break after an inline removal at the end of a line is
+    kept, a following blank line is not merged, the line is not joined with the next one. *)
+Theorem C14_seam_after_code_is_untouched :
   forall s p i b,
-    wf_utf8 s = true -> is_boundary s p = true -> nth_error s p = Some NL ->
+    wf_utf8 s = true -> is_boundary s p = true -> p <= length s ->
     i < p -> nth_error s i = Some b -> is_blank b = false -> b <> NL ->
     (forall j c, i < j -> j < p -> nth_error s j = Some c -> is_blank c = true) ->
-    empty_line_remover s p = Ok (p, p) /\ indent_remover s p = Ok (p, p).
-Proof. exact seam_after_code_keeps_line_break. Qed.
-Print Assumptions C14_line_break_after_code_is_kept.
+    format_block s p = Ok (p, p).
+Proof. exact seam_after_code_untouched. Qed.
+Print Assumptions C14_seam_after_code_is_untouched.
 
 (** Non-vacuity: "x\n  \ny" with a seam at 4 (a removed block line, residue "  "): the residue line
     goes; "x  \n  y" with a seam at 3 (an inline removal before the line break): nothing is deleted. *)
